@@ -66,6 +66,8 @@ class C16(Check):
     REQUIRED_TAGS = ['gzip', 'zstd', 'empty-list', 'empty-chunk-in-input', 'over-one-buffer', 'rand', 'zeros', 'multi-MiB-compressible']
     REQUIRED_OBSERVED = ['truncations_checked', 'rechunkings_checked', 'reference_decodes']
 
+    _ops = {}
+
     def generate(self, rng, tier, shard, nshards):
         n = 360 if tier == 'quick' else 3000
         big = 3 * 131072 + 17 if tier == 'quick' else 1 << 20
@@ -129,7 +131,12 @@ class C16(Check):
     def evaluate(self, case):
         out = Outcome()
         codec = case['codec']
-        comp_op, decomp_op = CODECS[codec]
+        # operator objects are built once per codec and re-subscribed for every stream / truncation: the
+        # (de)compressor object must belong to the subscription, not to the operator
+        if codec not in self._ops:
+            self._ops[codec] = (CODECS[codec][0](), CODECS[codec][1]())
+        comp_built, decomp_built = self._ops[codec]
+        comp_op, decomp_op = (lambda: comp_built), (lambda: decomp_built)
         chunks = build_chunks(case['data'])
         data = b''.join(chunks)
         out.tags += [codec, case['data']['kind']]
